@@ -1,10 +1,88 @@
 (* C13 — geometric invariants and in-place == copy after any transformation history.
-   ONLY statements closed by [exact], each followed by Print Assumptions. *)
+   ONLY statements closed by [exact], each followed by Print Assumptions.
+   Region-level statements are complete (all argument values, all histories, induction over the step
+   list).  Mesh / field roots: the executable model (History.v: mstep, fstep, inv_mesh, inv_field) is
+   tied to the code by the correspondence; their history theorems are not proved yet (see _partial). *)
 From DF Require Import Prelude Constants_gen Region Mesh Subregions History C13_region.
 Open Scope Q_scope.
 
-(* a rejected step leaves the state of the history as it was *)
+(* a rejected step leaves the state of the history as it was (any root object) *)
 Theorem C13_reject_unchanged : forall (s : hstate) (io : bool * hop),
   is_ok (step (fst io) (snd io) s) = false -> apply_step s io = s.
 Proof. exact reject_unchanged. Qed.
 Print Assumptions C13_reject_unchanged.
+
+(* one step, any arguments (valid, degenerate, malformed): the in-place path (own edge test, direct
+   assignment) and the copying path (constructor) accept the same calls and produce the same region *)
+Theorem C13_inplace_eq_copy_step : forall (o : hop) (r : region), wf_region r ->
+  rstep true o r = rstep false o r.
+Proof. exact rstep_inplace_eq_copy. Qed.
+Print Assumptions C13_inplace_eq_copy_step.
+
+(* an accepted step keeps pmin < pmax, the lengths, the unique dims *)
+Theorem C13_inv_step : forall (ip : bool) (o : hop) (r r' : region), wf_region r ->
+  rstep ip o r = OK r' -> wf_region r'.
+Proof. exact rstep_inv. Qed.
+Print Assumptions C13_inv_step.
+
+Theorem C13_step_keeps_dims : forall (ip : bool) (o : hop) (r r' : region), wf_region r ->
+  rstep ip o r = OK r' -> dims r' = dims r /\ tf r' = tf r /\ length (pmin r') = length (pmin r).
+Proof. exact rstep_keeps. Qed.
+Print Assumptions C13_step_keeps_dims.
+
+(* histories of any length on a region, any mix of forms, rejected steps skipped *)
+Theorem C13_inv_reachable_partial : forall (h : list (bool * hop)) (r : region),
+  wf_region r -> Inv (run h (SRegion r)).
+Proof. exact inv_reachable_region. Qed.
+Print Assumptions C13_inv_reachable_partial.
+
+(* the final state does not depend on which form each step used *)
+Theorem C13_inplace_eq_copy_partial : forall (ops : list hop) (f1 f2 : list bool) (r : region),
+  wf_region r -> length f1 = length ops -> length f2 = length ops ->
+  run (combine f1 ops) (SRegion r) = run (combine f2 ops) (SRegion r).
+Proof. exact forms_irrelevant_region. Qed.
+Print Assumptions C13_inplace_eq_copy_partial.
+
+(* documented maps: translation adds the vector (always accepted) *)
+Theorem C13_affine_translate : forall (ip : bool) (w : list Q) (r : region), wf_region r ->
+  length w = ndim r ->
+  rstep ip (HTranslate (VSeq (map EReal w))) r =
+  OK (mkRegion (map2 Qplus (pmin r) w) (map2 Qplus (pmax r) w) (dims r) (units r) (tf r)).
+Proof. exact translate_adds. Qed.
+Print Assumptions C13_affine_translate.
+
+(* scaling, per axis: both raw corners are R + s*(x - R) ... *)
+Theorem C13_affine_scale_axis : forall R s lo hi : Q,
+  hscale_lo R lo s == R + s * (lo - R) /\
+  hscale_hi (hscale_lo R lo s) (hi - lo) s == R + s * (hi - R).
+Proof. exact scale_axis. Qed.
+Print Assumptions C13_affine_scale_axis.
+
+(* ... and the new edge vanishes (step refused by both forms) exactly for a zero factor *)
+Theorem C13_scale_degenerate_iff : forall R s lo hi : Q, lo < hi ->
+  (hscale_hi (hscale_lo R lo s) (hi - lo) s - hscale_lo R lo s == 0 <-> s == 0).
+Proof. exact scale_edge_zero. Qed.
+Print Assumptions C13_scale_degenerate_iff.
+
+Example C13_scale_degenerate_iff_nonvacuous : (0 : Q) < 4.
+Proof. reflexivity. Qed.
+
+(* a quarter turn about a point keeps that point: the default reference of Mesh.rotate90 may be read
+   before or after the region is turned *)
+Theorem C13_rot_center_fixed : forall (a b : nat) (k : Z) (ra rb : Q) (p : list Q),
+  nth a p 0 == ra -> nth b p 0 == rb -> forall j, nth j (hrot_pt a b k ra rb p) 0 == nth j p 0.
+Proof. exact rot_fixed. Qed.
+Print Assumptions C13_rot_center_fixed.
+
+(* non-vacuity: a concrete region satisfies the invariant; negative factor in place re-orders the corners,
+   zero factor is refused by both forms, an odd quarter turn swaps the units *)
+Example C13_nonvacuous :
+  wf_region demo_region /\
+  (exists r', rstep true (HScale (VScalar (-(1))) (RSeq [EReal 0; EReal 0; EReal 0])) demo_region = OK r' /\
+     qlist_eqb (pmin r') [-(4); -(2); -(1)] = true /\ qlist_eqb (pmax r') [0; 0; 0] = true) /\
+  is_ok (rstep true (HScale (VScalar 0) RNone) demo_region) = false /\
+  is_ok (rstep false (HScale (VScalar 0) RNone) demo_region) = false /\
+  (exists r', rstep true (HRot "x" "y" (KInt 1) RNone) demo_region = OK r' /\
+     units r' = ["nm"%string; "m"%string; "s"%string] /\
+     qlist_eqb (pmin r') [1; -(1); 0] = true /\ qlist_eqb (pmax r') [3; 3; 1] = true).
+Proof. exact demo_steps. Qed.
